@@ -168,6 +168,23 @@ def run_case(ctx, rng, idx):
             lab, g2 = second_order(rng, h)
             ctx.event("re-evaluated-on-" + lab)
             static_case(ctx, rng, g2, idx, stress=False)
+    elif m == 5 and (idx // 8) % 4 == 3:
+        # third stress family: FEW nodes (26-40 < 256), yet one node pair in 276+ hyperedges of ONE order (the pair plus every
+        # 2-subset of 24 others), a few hyperedges of other orders: counts beyond one byte although every dimension is small
+        import hypergraphx as hgx
+
+        ctx.event("compact-pair-in-276-hyperedges-of-one-order")
+        base = rng.choice([0, 50])
+        others = [base + 2 + 3 * i for i in range(rng.choice([24, 25]))]
+        a, b = base, base + 1
+        h = hgx.Hypergraph()
+        for c in itertools.combinations(others, 2):
+            h.add_edge((a, b) + c)
+        h.add_edge((a, others[0]))
+        h.add_edge((b, others[1], others[2]))
+        for x in range(rng.randint(0, 12)):
+            h.add_node(1000 + x)
+        hub_case(ctx, rng, h, idx, 3)
     elif m == 5 and (idx // 8) % 2 == 1:
         # second stress family: a hub in 256+ hyperedges of ONE order (non-contiguous labels, an isolated node)
         import hypergraphx as hgx
@@ -379,7 +396,7 @@ def hub_case(ctx, rng, h, idx, d):
 
     nodes = sorted(h.get_nodes())
     row = {n: i for i, n in enumerate(nodes)}
-    edges = [tuple(e) for e in h.get_edges()]
+    edges = [tuple(e) for e in h.get_edges() if len(e) == d + 1]  # the per-order matrices count the hyperedges of that order only
     N = len(nodes)
     B = np.zeros((N, len(edges)), dtype=np.int64)
     for j, e in enumerate(edges):
